@@ -351,10 +351,16 @@ def run_witnesses(rep):
     rep.sample({'rule': 'E4 compile_fail witnesses with twins', 'doctests': len(tests)})
 
 
+CALENDAR_PROPS = ('C10', 'C11')
+
+
 def prop_contracts(pid, explanation):
     def run(rep: Report, tier):
         fl = floors().get(pid, {})
-        for cfg in tier_cfgs(tier):
+        cfgs = tier_cfgs(tier)
+        if tier == 'thorough' and pid in CALENDAR_PROPS:
+            cfgs = cfgs + ['full-calendar']
+        for cfg in cfgs:
             ctx = Ctx(cfg, prop=pid)
             rep.configs.append(cfg)
             n = contract_records(rep, ctx, pid)
